@@ -81,6 +81,9 @@ def analyse(t, hole: Q) -> Q | None:
         if a is None or b is None:
             return None
         x, c = (a, cb) if cb is not None else (b, ca) if ca is not None else (None, None)
+        if h == "div" and a.carrier == "timedelta" and b.carrier in ("const", "timedelta"):
+            # timedelta / timedelta is a true (float) division
+            return a.then("timedelta / timedelta (float)", carrier="float", unit="ms", exact=False, via_float=True)
         if h == "div" and x is a and isinstance(c, (int, float)):
             # true division of an integer/float quantity: result is a float, inexact
             unit = {("ms", 1000): "s", ("us", 1000): "ms", ("us", 1000000): "s"}.get((x.unit, c), None)
@@ -145,6 +148,8 @@ def analyse(t, hole: Q) -> Q | None:
                     q = q.then(f"replace(microsecond={c})", gran="1s", issues=q.issues + ["microsecond set to a non-zero constant"])
                 elif _is_ms_truncation(kw[1]):
                     q = q.then("replace(microsecond=us - us % 1000)", gran="1ms" if GRAN_ORDER.get(q.gran, 0) <= 1 else q.gran)
+                    if q.via_float:
+                        q.issues = q.issues + ["T-trunc: a float-derived datetime is floored to the millisecond"]
                 else:
                     q = q.then("replace(microsecond=<expr>)", gran=None)
             elif isinstance(kw, list) and kw and kw[0] == "second":
@@ -240,6 +245,10 @@ def read_side(conv, wire_bits: int, kind: str):
     if kind == "duration" and wire_bits == 64 and q.via_float:
         out.append(("T-float64", f"64-bit millisecond duration passes through a float on decode: {' -> '.join(q.ops)}",
                     next(o for o in q.ops if "/" in o or "float" in o)))
+    for iss in q.issues:
+        if iss.startswith("T-trunc"):
+            out.append(("T-trunc", f"{iss[9:]}: {' -> '.join(q.ops)}; beyond 2**33 s a double is coarser than 1 us, so "
+                                   f"8589934592001 ms lands below the millisecond boundary and decodes as ...000", "replace("))
     return q, out
 
 
